@@ -433,6 +433,13 @@ def callarg_shapes() -> List[Shape]:
          "f8": [keep("/ca/d", "f9", "pass")], "f9": []},
         reads={"f4": ["v1"], "f6": ["v2"]}, vtype={"v1": "int", "v2": "int"},
         defaults=["f8"], tags=["plain-call-arguments", "parameter-handed-on", "explicit-argument-over-default"]))
+    # one plain helper that takes an argument, called from two kept functions: each caller's
+    # signature must depend on its own call site only
+    S.append(Shape(
+        "shared_helper", "f1",
+        {"f1": [call("f2"), call("f3")], "f2": [call("f4", "const")], "f3": [call("f4", "const")], "f4": []},
+        reads={"f2": ["v1"], "f3": ["v2"], "f4": ["v3"]}, vtype={"v1": "int", "v2": "int", "v3": "int"},
+        dpath={"f2": "/sh/a", "f3": "/sh/b"}, tags=["helper-with-argument-shared-by-two-kept-functions"]))
     # the root takes the argument from its caller and hands it on, two levels down
     S.append(Shape(
         "callargs_root", "f1",
